@@ -139,11 +139,14 @@ def termConsts : List Term → List Int
   | .const c :: l => c :: termConsts l
   | .var _ :: l => termConsts l
 
-def progConsts (prog : List Clause) : Nat :=
-  (prog.map fun c => (termConsts c.head.args).length).foldl (· + ·) 0
+/-- the constants of the clause heads / the values stored in the inputs: together the active domain. -/
+def headConsts (prog : List Clause) : List Int := prog.flatMap fun c => termConsts c.head.args
 
-def inputSize (inputs : List (Name × List Tup)) : Nat :=
-  (inputs.map fun p => (p.2.map (·.length)).foldl (· + ·) 0).foldl (· + ·) 0
+def inputInts (inputs : List (Name × List Tup)) : List Int := inputs.flatMap fun p => p.2.flatten
+
+def progConsts (prog : List Clause) : Nat := (headConsts prog).length
+
+def inputSize (inputs : List (Name × List Tup)) : Nat := (inputInts inputs).length
 
 /-- more rounds than there are derivable tuples: |heads| · (|active domain| + 1)^maxArity + 2. -/
 def evalFuel (prog : List Clause) (inputs : List (Name × List Tup)) : Nat :=
@@ -560,14 +563,9 @@ def wellUsed : St → List Step → Bool
   | s, st :: l => stepWellUsed s st && wellUsed (step s st).1 l
 
 /-- every evaluation the state can be asked for reached its fix-point within the evaluator's fuel
-    (all rules over the facts; the snapshot's prefix over its inputs). -/
+    (all rules over the facts; the snapshot's prefix over its inputs). Always true: `conv_always`
+    (Lemmas/IncrFuel.lean); the driver still asserts it on every visited state. -/
 def convState (s : St) : Bool :=
   conv (allRules s.catalog) s.facts && conv s.snap.rules s.snap.inputs
-
-/-- the evaluator's side condition along a history (decidable; observed by the driver on every
-    generated history: a failure would show as `!fuel` in the model output). -/
-def evalConverged : St → List Step → Bool
-  | s, [] => convState s
-  | s, st :: l => convState s && evalConverged (step s st).1 l
 
 end ILV.C18
